@@ -59,7 +59,9 @@ def strategy_(draw):
         "tau": draw(st.floats(30.0, 400.0)),
         "M": draw(st.floats(10.0, 1e5)),
         "p_i": draw(st.floats(5000.0, 11000.0)),
-        "levels": [draw(st.floats(0.05, 0.9)) for _ in range(3)],
+        "levels": [draw(st.one_of(st.floats(0.05, 0.9), st.floats(0.0025, 0.9))) for _ in range(3)],
+        # unit of every pressure in the figure's inputs (table, production record, p_initial): psi, MPa, bar, Pa
+        "p_unit": draw(st.sampled_from([1.0, 1.0, 1.0, 6.894757e-3, 0.06894757, 6894.757])),
         "zero_days": sorted(set(draw(st.lists(st.integers(1, n - 2), max_size=5)))),
         "nan_days": sorted(set(draw(st.lists(st.integers(1, n - 2), max_size=4)))),
         "filter": draw(st.booleans()),
@@ -254,9 +256,11 @@ def check_case(case) -> Result:
         from bluebonnet.forecast import plot_production_comparison
 
         n = case["n"]
-        tab = tables.build({"family": "shipped", "name": "hay", "thin": 1})
+        unit = float(case.get("p_unit", 1.0))
+        res.labels["p_unit"] = str(unit)
+        tab = tables.build({"family": "shipped", "name": "hay", "thin": 1, "p_unit": unit})
         pvt = pd.DataFrame(tab)
-        p_i = case["p_i"]
+        p_i = case["p_i"] * unit
         days = np.arange(n, dtype=float)
         third = n // 3
         pf = np.concatenate([np.full(third, case["levels"][0]), np.full(third, case["levels"][1]), np.full(n - 2 * third, case["levels"][2])]) * p_i
